@@ -19,7 +19,7 @@ Definition ok : reply := mkReply OOk false vgen.
 Definition fl : reply := mkReply OFail false vgen.
 Definition bad : reply := mkReply OFail false (mkVal VBadConn MWrap).
 Definition stx : step := mkStep (AStmt MExec true) FStop.
-Definition sc1 (steps : list step) (f : fin) : script := mkScript true false true true 1 [] steps f 0.
+Definition sc1 (steps : list step) (f : fin) : script := mkScript true false false true true 1 [] steps f 0.
 
 (* ---- C14-1 / C14-2: err = tx.Commit() became "if err := tx.Commit(); err != nil { log }" ---- *)
 Definition ret_commit_dropped (o : bout) (x : endres) : ret :=
@@ -77,7 +77,7 @@ Definition tstep_ctx_after_begin (g : bool) (t : nat) (sc : script) (st : tstate
     if let_through sc then
       let '(o, v, c, l, orc1) := begin_all max_begin_retries t (sretry sc) (sconn sc) orc in
       match o with
-      | OOk => if sctxapi sc && c then (TDone (mkRes 0 None (RetErr ECanceled) false), l, orc1, false)
+      | OOk => if sctxapi sc && c then (TDone (mkRes 0 None (RetErr (ECtxDone (sdl sc))) false), l, orc1, false)
                else (TBody 0 (ssteps sc) c false, l, orc1, false)
       | _ => (TDone (mkRes 0 None (RetErr (EBegin v)) false), l, orc1, false)
       end
@@ -185,7 +185,7 @@ Example badconn_statement_is_rolled_back :
    mkEnt 0 1 (CStmt 1 KExec) OFail (mkVal VBadConn MWrap); mkEnt 0 1 CRollback OOk vgen].
 Proof. vm_compute. reflexivity. Qed.
 Example nested_call_is_bracketed :
-  wlog (exec true [sc1 [mkStep ANop FStop] (RErr vgen); mkScript true false true true 2 [] [stx] RNil 0]
+  wlog (exec true [sc1 [mkStep ANop FStop] (RErr vgen); mkScript true false false true true 2 [] [stx] RNil 0]
              [0; 0; 1; 1; 1; 0]%nat []) =
   [en 0 1 CBegin OOk; en 1 2 CBegin OOk; en 1 2 (CStmt 0 KExec) OOk; en 1 2 CCommit OOk; en 0 1 CRollback OOk].
 Proof. vm_compute. reflexivity. Qed.
